@@ -139,3 +139,49 @@ pub open spec fn clamp_y(s: Screen, y: int, region: bool) -> int {
 pub open spec fn cup_ignored(s: Screen, line: Option<u32>) -> bool {
     origin_on(s) && eff(line) - 1 + top_of(s) > bottom_of(s)
 }
+
+/// everything except the cell buffer and the dirty set
+pub open spec fn same_but_cells_dirty(a: Screen, b: Screen) -> bool {
+    a.savepoints@ == b.savepoints@ && a.columns == b.columns && a.lines == b.lines
+    && a.margins == b.margins && a.mode@ == b.mode@ && a.title@ == b.title@
+    && a.icon_name@ == b.icon_name@ && a.charset == b.charset && a.g0_charset == b.g0_charset
+    && a.g1_charset == b.g1_charset && a.tabstops@ == b.tabstops@ && a.cursor == b.cursor
+    && a.saved_columns == b.saved_columns
+}
+/// the cell an erase operation writes: a space carrying the cursor's current rendition
+pub open spec fn erased(s: Screen) -> Cell { cv(s.cursor.attr) }
+
+/// EL column selection (how: absent = 0)
+pub open spec fn el_range(s: Screen, how: Option<u32>, x: u32) -> bool {
+    match how { None | Some(0) => s.cursor.x <= x, Some(1) => x <= s.cursor.x, Some(2) => true, _ => false }
+}
+pub open spec fn el_supported(how: Option<u32>) -> bool { match how { None | Some(0) | Some(1) | Some(2) => true, _ => false } }
+
+// ---- TRUSTED shim: HashSet<u32>::extend(Range<u32>) ------------------------------
+#[verifier::external_body]
+pub fn hs_extend_range(s: &mut HashSet<u32>, r: std::ops::Range<u32>)
+    ensures forall|v: u32| #![trigger final(s)@.contains(v)] final(s)@.contains(v) == (old(s)@.contains(v) || (r.start <= v && v < r.end)),
+{
+    s.extend(r)
+}
+
+pub assume_specification<Idx: Clone>[<std::ops::Range<Idx> as Clone>::clone](c: &std::ops::Range<Idx>) -> (r: std::ops::Range<Idx>) ensures r == *c;
+
+/// ED cell selection (how: absent = 0)
+pub open spec fn ed_range(s: Screen, how: Option<u32>, y: u32, x: u32) -> bool {
+    match how {
+        None | Some(0) => y > s.cursor.y || (y == s.cursor.y && x >= s.cursor.x),
+        Some(1) => y < s.cursor.y || (y == s.cursor.y && x <= s.cursor.x),
+        Some(2) | Some(3) => true,
+        _ => false,
+    }
+}
+/// rows in which ED may change something
+pub open spec fn ed_row(s: Screen, how: Option<u32>, y: u32) -> bool {
+    match how {
+        None | Some(0) => y >= s.cursor.y,
+        Some(1) => y <= s.cursor.y,
+        Some(2) | Some(3) => true,
+        _ => false,
+    }
+}
